@@ -37,7 +37,7 @@ class Job:
                  defines=None, thorough_defines=None, flags=(), unwind=None, bounded=None,
                  timeout=600, mem_gb=8, min_obligations=1, loops=0, reach=(),
                  functions=None, note='', tiers=('quick', 'thorough'), replay=True,
-                 object_bits=None, unwindset=(), no_loop_contracts=False, extra_cc=(),
+                 object_bits=12, unwindset=(), no_loop_contracts=False, extra_cc=(),
                  entry='harness', trusted=(), clauses=(), concretize=None):
         self.name = name
         self.harness = harness            # path relative to /verif/harness
@@ -544,6 +544,9 @@ def run_property(prop, jobs, tier, level_text, undecided_clauses, static_facts=N
     t0 = time.time()
     seed = int(os.environ.get('VERIF_SEED', '0') or 0)
     jobs = [j for j in jobs if tier in j.tiers]
+    only = os.environ.get('VERIF_JOBS')   # development aid: comma-separated job names (evidence then covers only those)
+    if only:
+        jobs = [j for j in jobs if j.name in only.split(',')]
     try:
         inc_extra = ensure_generated_headers()
     except Undecided as e:
